@@ -155,6 +155,29 @@ check('C02', 'DESIGN.md 4/C02',
       'Trusts python-engineio\'s packet/payload codec and state machines; '
       'engine.io transports (HTTP, WebSocket) are not exercised.')
 
+TBP = ('In-memory ordered channel carrying pickled messages instead of a '
+       'broker; the listener loop body (_thread) and every manager method '
+       'are the real code; python-engineio trusted as above.')
+check('C07', 'DESIGN.md 4/C07',
+      MB + ': differential against a reference single server; generated '
+      'consumption schedules for the delayed case',
+      'A cluster of 2-4 real servers with PubSubManager/AsyncPubSubManager '
+      'subclasses and a reference single server are driven by the same '
+      'history. Immediate schedule: per-client event sequences, rooms and '
+      'callbacks must be identical. Delayed schedule (generated per-host '
+      'consumption steps): at-most-once, eligibility inside each host\'s '
+      'flight window, exactness for emits not raced by a membership change, '
+      'callbacks once on the issuing host.', TBP)
+check('C15', 'DESIGN.md 4/C15',
+      'fuzzing of the channel with generated bad messages and injected '
+      'faults, sentinel-delivery oracle',
+      'Generated channel sequences (garbage bytes, pickles/JSON of '
+      'non-dicts, missing / wrong-typed / surplus fields, unknown methods, '
+      'own-host echoes, foreign and unknown callbacks) with faults injected '
+      'into the transport send, the disconnect handler, the application '
+      'callback and the listen iterator; a valid sentinel after every '
+      'message must be delivered exactly once and in order.', TBP)
+
 NOT_BUILT = {}
 
 
